@@ -324,6 +324,38 @@ def check_mutated_reuse(acc: core.Acc, a: tuple, b: tuple) -> None:
     acc.nontrivial += 1
 
 
+NEAR_DELTAS = (1e-7, 3e-9, -1e-8)
+
+
+def check_near_sequence(acc: core.Acc, a: tuple) -> None:
+    """History: conversions of neighbouring angles (closer than the 1e-6 comparison tolerance) one after the other, through
+    every rotation type; each result is judged against the reference for ITS OWN angle at 1e-12 (no state between calls)."""
+    seq = [a] + [tuple(c + (d if i == k else 0.0) for i, c in enumerate(a)) for k in range(3) for d in NEAR_DELTAS]
+    for tname in ('FrozenAngle', 'Angle'):
+        for form in ('from_angle', 'to_matrix', 'vec_matmul'):
+            for (p, y, r) in seq:
+                acc.evaluations += 1
+                ang = ANG_TYPES[tname](p, y, r)
+                want = ref_matrix(p, y, r)
+                if form == 'from_angle':
+                    got = rows(Matrix.from_angle(ang))
+                    err = mdiff(got, want)
+                    got2 = rows(FrozenMatrix.from_angle(ang))
+                    err = max(err, mdiff(got2, want))
+                elif form == 'to_matrix':
+                    got = rows(Matrix.from_angle(ang.pitch, ang.yaw, ang.roll))
+                    err = mdiff(got, want)
+                else:
+                    v = (1e6, -2e6, 3e6)
+                    got = tuple(Vec(*v) @ ang)
+                    err = vdiff(got, vec_mat(v, want)) / 1e6
+                if err > 1e-12:
+                    acc.fail('near_angle_sequence', {'near': list(a)},
+                             f'{tname}({p!r}, {y!r}, {r!r}) via {form}, evaluated after its neighbours {seq[:3]}...: differs from the '
+                             f'closed form by {err:.3e}', form=form, type=tname)
+                    return
+
+
 def lattice_g1():
     steps = [15.0 * i for i in range(24)]
     return itertools.product(steps, steps, steps)
@@ -361,6 +393,7 @@ def shard(spec) -> core.Acc:
         a_list, b_list = spec[1], spec[2]
         for a in a_list:
             guarded(acc, check_self_alias, {'self_alias': list(a)}, a)
+            guarded(acc, check_near_sequence, {'near': list(a)}, a)
             for b in b_list:
                 guarded(acc, check_pair, {'a': list(a), 'b': list(b)}, a, b)
                 guarded(acc, check_mutated_reuse, {'reuse_a': list(a), 'reuse_b': list(b)}, a, b)
@@ -388,7 +421,7 @@ def run(ctx: core.Ctx) -> None:
                 f'determinant, to_angle round trip (2h allowance under the 0.001 threshold), inverse vs transpose, and '
                 f'{len(VECS)} vectors x (Vec, FrozenVec, tuple) x (Angle, FrozenAngle, Matrix, FrozenMatrix) x (@, @=). Composition: '
                 f'all {len(pairs_a)}^2 ordered pairs of the {int(step)}-degree sub-lattice + {len(special)} special angles x the 4x4 '
-                f'rotation type matrix x (@, @=) with associativity on 3 vectors. Reference: closed-form AngleVectors and the '
+                f'rotation type matrix x (@, @=) with associativity on 3 vectors; for each first angle also the sequence of its 9 neighbours at 1e-7 / 3e-9 / -1e-8 degrees per component, converted one after another (results must not depend on earlier calls). Reference: closed-form AngleVectors and the '
                 f'roll-pitch-yaw product, both written in the harness. Non-trivial = every angle / pair (each enumerated once).')
 
 
@@ -396,6 +429,8 @@ def replay(case: dict) -> list:
     acc = core.Acc()
     if 'reuse_a' in case:
         guarded(acc, check_mutated_reuse, case, tuple(case['reuse_a']), tuple(case['reuse_b']))
+    elif 'near' in case:
+        guarded(acc, check_near_sequence, case, tuple(case['near']))
     elif 'self_alias' in case:
         guarded(acc, check_self_alias, case, tuple(case['self_alias']))
     elif 'angle' in case:
